@@ -15,7 +15,7 @@
    What is abstracted: the transaction body, the auxiliary data, native scripts and redeemers (as elements)
    are delimited as ONE generic CBOR item each (Cbor/Item.v) - the library additionally validates their
    contents, i.e. it rejects some inputs this model accepts (refinement; compared one-sidedly).  Everything
-   that decides which bytes are kept, dropped, re-encoded or counted is modelled exactly: outer array, the
+   that decides which bytes are kept, dropped, re-encoded or counted is modelled exactly: outer array (3 or 4 items), the
    witness-set map loop (key order, duplicates, indefinite length), per-field byte capture, the collection
    loops incl. their "break inside a definite array" behaviour, set tags, vkey / bootstrap witnesses, Plutus
    scripts (byte strings) and Plutus data elements, is_valid / auxiliary-data look-ahead, the tag state.
@@ -50,9 +50,10 @@ Definition dec_vkw : parser vkw := fun bs =>
   | Indef => let* r3 := expect_break r2 in Ok ((vk, sg), r3)
   end.
 
-(* BootstrapWitness::deserialize: a definite length is NOT checked ("TODO: check finite len somewhere") *)
+(* BootstrapWitness::deserialize: a definite length must be 4 (check_len, /repo 3be5cfb) *)
 Definition dec_bw : parser bw := fun bs =>
   let* '(ln, r0) := rd_array bs in
+  let* _ := check_len ln 4 in
   let* '(vk, r1) := rd_bytes r0 in
   if negb (blen vk =? 32) then Err else
   let* '(sg, r2) := rd_bytes r1 in
@@ -285,16 +286,17 @@ Definition dec_aux_after_bool : parser (option bytes) := fun bs =>
     match s with SpNull => Ok (None, r) | _ => Err end
   else let* '(a, r) := raw_item bs in Ok (Some a, r).
 
-Definition dec_tail : parser (bool * option bytes) := fun bs =>
+(* as of /repo 3be5cfb a definite outer length must be 4 when the bool is there and 3 otherwise *)
+Definition dec_tail (ln : harg) : parser (bool * option bytes) := fun bs =>
   let* t := cbor_type bs in
   if t =? 7 then
     let* '(s, r) := rd_special bs in
     match s with
-    | SpBool b => let* '(a, r') := dec_aux_after_bool r in Ok ((b, a), r')
-    | SpNull => Ok ((true, None), r)
+    | SpBool b => let* _ := check_len ln 4 in let* '(a, r') := dec_aux_after_bool r in Ok ((b, a), r')
+    | SpNull => let* _ := check_len ln 3 in Ok ((true, None), r)
     | _ => Err
     end
-  else let* '(a, r) := raw_item bs in Ok ((true, Some a), r).
+  else let* _ := check_len ln 3 in let* '(a, r) := raw_item bs in Ok ((true, Some a), r).
 
 Inductive op :=
 | OAddVkey (w : vkw)            (* add_vkey_witness *)
@@ -334,10 +336,10 @@ Section Model.
 
   (* FixedTransaction::deserialize (from_bytes ignores what follows) *)
   Definition decode_fixed : parser fixed_tx := fun bs =>
-    let* '(ln, r0) := rd_array bs in                   (* the declared length is not checked *)
+    let* '(ln, r0) := rd_array bs in
     let* '(bit, bb, r1) := item_with_bytes r0 in
     let* '(w, r2) := decode_wits r1 in
-    let* '(valid, aux, r3) := dec_tail r2 in
+    let* '(valid, aux, r3) := dec_tail ln r2 in
     let* r4 := close_len ln r3 in
     let* tx := mk_fixed bit bb w valid aux in
     Ok (tx, r4).
@@ -580,6 +582,18 @@ Definition same_reading (input : bytes) : bool :=
       bytes_eqb (ft_body tx) (sp_body s) && opt_bytes_eqb (ft_aux tx) (sp_aux s)
       && Bool.eqb (ft_valid tx) (sp_valid s) && slices_eqb (field_slices (ft_wits tx)) (sp_fields s)
   | _, _ => false
+  end.
+
+(* the model's own observation, in the form the judge reads (H = identity: the hash is carried as its preimage),
+   and the operations paired with their success in the model *)
+Definition model_obs (tx : fixed_tx) : obs :=
+  {| o_body := ft_body tx; o_aux := ft_aux tx; o_wits := encode_wits (ft_wits tx);
+     o_tx := encode_fixed tx; o_hash_pre := Some (ft_hash tx) |}.
+Fixpoint op_flags (sv : bytes -> bytes -> vkw) (sb : bool -> bytes -> bytes -> bw) (ops : list op) (tx : fixed_tx)
+  : list (op * bool) :=
+  match ops with
+  | [] => []
+  | o :: t => (o, is_ok (apply_op (fun b => b) sv sb o tx)) :: op_flags sv sb t (step (fun b => b) sv sb tx o)
   end.
 
 (* a datum: what PlutusData::from_bytes(input).to_bytes() returned and the bytes whose Blake2b-256 is
